@@ -42,8 +42,11 @@ def apply_actions(
     :param problem_objects: the objects of the problem, needed to evaluate universal preconditions and effects.
     :return: The state resulting from applying the actions.
     """
-    if len(joint_action) == 1:
-        action_call = joint_action[0]
+    executed_actions = [
+        action_call for action_call in joint_action if action_call.name != NOP_ACTION
+    ]
+    if len(executed_actions) == 1:
+        action_call = executed_actions[0]
         action = domain.actions[action_call.name]
         return Operator(
             action=action,
@@ -56,10 +59,7 @@ def apply_actions(
         )
 
     accumulative_changed_state = current_state.copy()
-    for action_call in joint_action:
-        if action_call.name == NOP_ACTION:
-            continue
-
+    for action_call in executed_actions:
         action = domain.actions[action_call.name]
         operator = Operator(
             action=action,
